@@ -77,6 +77,10 @@ def run(res, tier):
         res.configs.append(p.build_info)
         nc = col1(p, res)
         res.floor("COL-1", "core noise-free operations", nc, 12)
+        from .c11 import col2
+        res.rule("COL-2", "core noise-free operations read an operand at the loop's column index only below the operand's own rank + 1 (bound equal, min-dominated, branch-resolved max, or ranks asserted equal)")
+        nc2 = col2(p, res)
+        res.floor("COL-2", "read operands indexed by a column loop", nc2, 10)
         n_ow, cov = wr1(p, res, restrict=in_c02)
         res.floor("WR-1", "C02 overwrite-type shape functions", n_ow, 10)
         n2, sites = wr2(p, res, restrict=in_c02)
